@@ -1,7 +1,6 @@
 package main
 
 import (
-	"strings"
 	"crypto/ecdsa"
 	"encoding/json"
 	"errors"
@@ -10,6 +9,7 @@ import (
 	"os"
 	"path/filepath"
 	"sort"
+	"strings"
 	"time"
 
 	"github.com/mosaicnetworks/babble/src/config"
@@ -18,7 +18,11 @@ import (
 	"github.com/mosaicnetworks/babble/src/node"
 	_state "github.com/mosaicnetworks/babble/src/node/state"
 	"github.com/mosaicnetworks/babble/src/peers"
+	"github.com/mosaicnetworks/babble/src/proxy"
 	"github.com/mosaicnetworks/babble/src/proxy/inmem"
+	aproxy "github.com/mosaicnetworks/babble/src/proxy/socket/app"
+	bproxy "github.com/mosaicnetworks/babble/src/proxy/socket/babble"
+	gonet "net"
 )
 
 // ---------------------------------------------------------------------------
@@ -40,38 +44,39 @@ func defaultOpts() NodeOpts {
 }
 
 type SimNode struct {
-	Idx     int
-	Name    string
-	Addr    string
-	Key     *ecdsa.PrivateKey
-	PubHex  string
-	ID      uint32
-	Opts    NodeOpts
-	Conf    *config.Config
-	Node    *node.Node
-	Core    *node.VerifCore
-	App     *App
-	Proxy   *inmem.InmemProxy
-	Store   hg.Store
-	DBPath  string
-	trans   *simTransport
-	nw      *Network
+	Idx      int
+	Name     string
+	Addr     string
+	Key      *ecdsa.PrivateKey
+	PubHex   string
+	ID       uint32
+	Opts     NodeOpts
+	Conf     *config.Config
+	Node     *node.Node
+	Core     *node.VerifCore
+	App      *App
+	Proxy    *inmem.InmemProxy
+	AppRelay *forwarder // set when the application sits behind the socket proxy
+	Store    hg.Store
+	DBPath   string
+	trans    *simTransport
+	nw       *Network
 
-	Up          bool // a Node object exists and is reachable
-	Silent      bool // does not initiate and does not answer
-	Left        bool // left the network for good
-	Puppet      bool // no Node object: events are made by the harness
-	ResetEpochs int  // number of fast-forward resets
-	StoreClosed bool
+	Up           bool // a Node object exists and is reachable
+	Silent       bool // does not initiate and does not answer
+	Left         bool // left the network for good
+	Puppet       bool // no Node object: events are made by the harness
+	ResetEpochs  int  // number of fast-forward resets
+	StoreClosed  bool
 	peersAtCrash []*peers.Peer
 	// InsertFailedStep is the first step at which this incarnation failed to
 	// insert events it received (-1: never). Used for reset nodes: C13 holds
 	// "for as long as it can insert the events it receives".
 	InsertFailedStep int
-	AnchorAtReset   map[int]int // app epoch -> anchor block index the node reset to
-	AnchorRRAtReset map[int]int
-	Incarnation int
-	JoinedAtStep int
+	AnchorAtReset    map[int]int // app epoch -> anchor block index the node reset to
+	AnchorRRAtReset  map[int]int
+	Incarnation      int
+	JoinedAtStep     int
 
 	// Responder, if set, answers RPCs in place of a real node (Byzantine peer).
 	Responder func(from *SimNode, cmd interface{}) (interface{}, error)
@@ -113,7 +118,7 @@ type simTransport struct {
 	ch   chan bnet.RPC
 }
 
-func (t *simTransport) Listen()                  {}
+func (t *simTransport) Listen()                   {}
 func (t *simTransport) Consumer() <-chan bnet.RPC { return t.ch }
 func (t *simTransport) LocalAddr() string         { return t.self.Addr }
 func (t *simTransport) AdvertiseAddr() string     { return t.self.Addr }
@@ -363,30 +368,32 @@ type Network struct {
 	// Partition maps node idx -> group id (nil = no partition)
 	Partition map[int]int
 	// FFServe restricts which nodes answer fast-forward requests (nil = all)
-	FFServe map[int]bool
-	Rec     *Recorder
-	Mons    []Monitor
-	joinOf  map[int]*pendingJoin
-	joins   []*pendingJoin
-	txSeq   int
-	Submitted map[string]*SubmittedTx // by tx id string(bytes)
+	FFServe     map[int]bool
+	Rec         *Recorder
+	Mons        []Monitor
+	joinOf      map[int]*pendingJoin
+	joins       []*pendingJoin
+	txSeq       int
+	Submitted   map[string]*SubmittedTx // by tx id string(bytes)
 	SubmitOrder []*SubmittedTx
-	stopped bool
-	wantHost *SimNode
-	leaving  map[int]*ItxRecord
-	joinDirect func(target string, args *bnet.JoinRequest, resp *bnet.JoinResponse) error
-	inHook  bool
+	stopped     bool
+	wantHost    *SimNode
+	leaving     map[int]*ItxRecord
+	joinDirect  func(target string, args *bnet.JoinRequest, resp *bnet.JoinResponse) error
+	inHook      bool
 	// PinnedSilent nodes stay silent across schedule phases
-	PinnedSilent map[int]bool
-	lastActor *SimNode
+	PinnedSilent     map[int]bool
+	lastActor        *SimNode
 	lastActorChecked bool
-	puppets map[int]*Puppet
+	puppets          map[int]*Puppet
+	// SocketApp: nodes (by index) whose application sits behind the socket proxy
+	SocketApp map[int]bool
 	// AfterStepHook, if set, runs after every step before the monitors
-	AfterStepHook func(nw *Network)
+	AfterStepHook   func(nw *Network)
 	lastEagerFailed bool
-	ffOffers [][2]int // (block index, round received) of the fast-forward responses seen during the current step
-	idleAfterFair bool
-	lostPool map[int]bool // nodes that were restarted (their pending pool is legitimately gone)
+	ffOffers        [][2]int // (block index, round received) of the fast-forward responses seen during the current step
+	idleAfterFair   bool
+	lostPool        map[int]bool // nodes that were restarted (their pending pool is legitimately gone)
 	// KeyLabel distinguishes key families
 	keyLabel string
 	// options for new nodes
@@ -406,13 +413,13 @@ type SubmittedTx struct {
 }
 
 type ItxRecord struct {
-	Itx      hg.InternalTransaction
-	Host     int
-	Subject  int
-	Step     int
-	Poll     func() (bool, bool, int, []*peers.Peer)
-	Answered bool
-	Accepted bool
+	Itx           hg.InternalTransaction
+	Host          int
+	Subject       int
+	Step          int
+	Poll          func() (bool, bool, int, []*peers.Peer)
+	Answered      bool
+	Accepted      bool
 	AcceptedRound int
 }
 
@@ -434,16 +441,16 @@ func NewNetwork(cs CaseSpec, res *CaseResult) *Network {
 		panic(err)
 	}
 	nw := &Network{
-		Seed:        cs.Seed*1000003 + int64(cs.Index),
-		Rng:         cs.rng("net"),
-		byAddr:      map[string]*SimNode{},
-		Res:         res,
-		TmpDir:      dir,
-		stale:       map[[2]int]*bnet.SyncResponse{},
-		joinOf:      map[int]*pendingJoin{},
-		Submitted:   map[string]*SubmittedTx{},
-		keyLabel:    "n",
-		DefaultOpts: defaultOpts(),
+		Seed:                    cs.Seed*1000003 + int64(cs.Index),
+		Rng:                     cs.rng("net"),
+		byAddr:                  map[string]*SimNode{},
+		Res:                     res,
+		TmpDir:                  dir,
+		stale:                   map[[2]int]*bnet.SyncResponse{},
+		joinOf:                  map[int]*pendingJoin{},
+		Submitted:               map[string]*SubmittedTx{},
+		keyLabel:                "n",
+		DefaultOpts:             defaultOpts(),
 		CheckSuspendAfterGossip: true,
 	}
 	nw.Rec = NewRecorder(nw)
@@ -457,6 +464,11 @@ func (nw *Network) Close() {
 				defer func() { recover() }()
 				n.Store.Close()
 			}()
+		}
+	}
+	for _, n := range nw.Nodes {
+		if n.AppRelay != nil {
+			n.AppRelay.down()
 		}
 	}
 	os.RemoveAll(nw.TmpDir)
@@ -539,7 +551,40 @@ func (nw *Network) startNode(sn *SimNode, opts NodeOpts, current, genesis []*pee
 		store = hg.NewInmemStore(opts.CacheSize)
 	}
 	app := NewApp(sn.Name)
-	px := inmem.NewInmemProxy(app, conf.Logger())
+	var px proxy.AppProxy
+	if nw.SocketApp[sn.Idx] {
+		// out-of-process application: the node talks to it through the socket
+		// proxy pair, over a relay that can make the application unreachable
+		l1, err := gonet.Listen("tcp", "127.0.0.1:0")
+		if err != nil {
+			return err
+		}
+		appBind := l1.Addr().String()
+		l1.Close()
+		l2, err := gonet.Listen("tcp", "127.0.0.1:0")
+		if err != nil {
+			return err
+		}
+		nodeBind := l2.Addr().String()
+		l2.Close()
+		if _, err := bproxy.NewSocketBabbleProxy(nodeBind, appBind, app, 2*time.Second, quietLogger()); err != nil {
+			return err
+		}
+		fw, err := newForwarder(appBind)
+		if err != nil {
+			return err
+		}
+		ap, err := aproxy.NewSocketAppProxy(fw.addr(), nodeBind, 2*time.Second, quietLogger())
+		if err != nil {
+			return err
+		}
+		sn.AppRelay = fw
+		px = ap
+	} else {
+		ip := inmem.NewInmemProxy(app, conf.Logger())
+		sn.Proxy = ip
+		px = ip
+	}
 	tr := &simTransport{nw: nw, self: sn, ch: make(chan bnet.RPC)}
 	nd := node.NewNode(conf, node.NewValidator(sn.Key, sn.Name), peers.NewPeerSet(current), peers.NewPeerSet(genesis), store, tr, px)
 	app.LastRound = func() int { return store.LastRound() }
@@ -548,7 +593,6 @@ func (nw *Network) startNode(sn *SimNode, opts NodeOpts, current, genesis []*pee
 	sn.Node = nd
 	sn.Core = nd.VerifCore()
 	sn.App = app
-	sn.Proxy = px
 	sn.Store = store
 	sn.trans = tr
 	sn.Incarnation++
